@@ -12,7 +12,7 @@ def srcView (k : String) (W H PAD OFF : Int) : Option (View × Kind × Bool) :=
     some ({ base := OFF, xs := b, ys := W * b + PAD, w := W, h := H }, ⟨true, false, b, false, false, 0⟩, false)
   match k with
   | "g8" => bytes 1 | "rgb8" => bytes 3 | "rgba8" => bytes 4 | "rgb16" => bytes 6 | "rgb32f" => bytes 12 | "p565" => bytes 2
-  | "pl8" => planar 1 | "pl16" => planar 2
+  | "pl8" => planar 1 | "pl16" => planar 2 | "pd2" => planar 1 | "pd5" => planar 1
   | "b1" => bits 1 | "b2" => bits 2 | "b3" => bits 3 | "b4" => bits 4 | "b6" => bits 6 | "b12" => bits 12
   | "v" => some ({ base := OFF * 4096 + PAD, xs := 1, ys := 4096, w := W, h := H }, ⟨false, false, 0, true, false, 0⟩, true)
   | _ => none
@@ -106,6 +106,12 @@ def modelMv (v : View) (k : Kind) (x0 y0 : Int) (ms : List Move) : String :=
   let direct := ((View.loc v).move k X Y).pos
   showInts [l.pos, l.pos, direct, direct, X, Y]
 
+/-- (number of planes, distance between the planes) of the planar source kinds -/
+def planesOf (k : String) : Option (Nat × Int) :=
+  match k with
+  | "pl8" | "pl16" => some (3, 131072) | "pd2" => some (2, 65536) | "pd5" => some (5, 65536)
+  | _ => none
+
 def bitKind (b : Int) : Kind := ⟨true, false, b, false, false, 0⟩
 
 /-- distance between the planes of the harness's planar sources -/
@@ -145,6 +151,13 @@ def model (line : String) : String :=
       let J := xAdv k b off n                                                    -- it + n
       showInts [J, itSub k false b J off, (itCmp k false b off J)[0]!, (itCmp k false b J off)[0]!, xAdv k b J (-n)]
     | _ => "bad-op"
+  | "pnav" :: rest =>     -- planar views with EVERY plane: view(x,y) = memunit_advanced_ref(x(), offset(x,y)) (Model.C03.planarRef, generated bindings)
+    match parseView (rest.take 6), ints (rest.drop 6), planesOf (rest.headD "") with
+    | some (v, _, _), some [_, _], some (n, sp) =>
+      let ps0 := (List.range n).map fun (k : Nat) => v.base + (k : Int) * sp
+      let pix := (range' 0 (v.h - 1)).flatMap fun y => (range' 0 (v.w - 1)).flatMap fun x => planarRef ps0 (loc_offset x y v.ys v.xs)
+      join [[v.w, v.h, n], pix, []]
+    | _, _, _ => "bad-op"
   | "pli" :: rest =>      -- raw planar x-iterator with all its planes: it = row_begin(y) + i;  it[d], it + d, (it+d) - it, comparisons
     match parseView (rest.take 6), ints (rest.drop 6) with
     | some (v, k, _), some [y, i, d] =>
@@ -263,6 +276,21 @@ def judge (op obs : String) : String :=
       else if p2 ≠ off then fail "bit iterator: advance n then -n is the identity"
       else "ok"
     | _, _ => fail ("not-a-value:" ++ obs.take 40)
+  | "pnav" :: rest =>
+    match parseView (rest.take 6), planesOf (rest.headD ""), (splitGroups (words obs)).map ints with
+    | some (v, _, _), some (n, sp), [some [w, h, np], some pix, some mm] =>
+      if w ≠ v.w ∨ h ≠ v.h ∨ np ≠ n ∨ pix.length ≠ (w * h * n).toNat then fail "shape" else
+      match mm with
+      | [x, y, path, plane, got, want] =>
+        fail s!"paths-agree: path {path} reaches address {got} in plane {plane} for pixel ({x},{y}), view(x,y)'s plane 0 implies {want}"
+      | _ =>
+        let coords := (range' 0 (h - 1)).flatMap fun y => (range' 0 (w - 1)).map fun x => (x, y)
+        let bad := (coords.zip (chunks n pix)).find? fun ((x, y), c) =>
+          c ≠ (List.range n).map (fun (k : Nat) => v.addr x y + (k : Int) * sp)
+        match bad with
+        | some ((x, y), _) => fail s!"planar address law: view({x},{y}) must address plane k at base + y*ys + x*xs + k*plane distance, in every plane"
+        | none => "ok"
+    | _, _, _ => fail ("not-a-value:" ++ obs.take 40)
   | "pli" :: rest =>
     match parseView (rest.take 6), ints (rest.drop 6), ints (words obs) with
     | some (_, k, _), some [_, _, d], some [p0, p1, p2, i0, i1, i2, a0, a1, a2, sub, lt, gt, le, ge, eq, ne] =>
